@@ -123,6 +123,12 @@ CatchRet(cp, b) == Simple("catchret", "none", <<1, 1>>, <<>>, "", <<cp, RBlock(b
 CleanupRetCaller(cp) == Simple("cleanupret", "none", <<1, 0>>, <<>>, "", <<cp>>)
 
 Blk(name, insts, term) == [name |-> name, insts |-> insts, term |-> term]
+\* a use of a result: freeze accepts every first-class type, so printing it shows the type the
+\* library derived for the operand and LLVM checks it against the type of the definition
+UseOf(ty, ref, name) ==
+  LET i == Simple("freeze", "i32", <<1>>, <<>>, name, <<ref>>)
+  IN [i EXCEPT !.ops = <<[i.ops[1] EXCEPT !.ty = ty]>>, !.res = ty]
+Usable(ty) == ty.k \notin {"void", "token", "label"}
 
 DeclFunc(name, ty) == [op |-> "NewFunc", name |-> name, ty |-> ty]       \* declaration; ty: pointer to function type
 DeclGlobal(name, ty) == [op |-> "NewGlobal", name |-> name, ty |-> ty]   \* external global of content type ty
@@ -198,7 +204,9 @@ Scaffold(c0) ==
       I == MkInst(c, rname, [k \in 1..Len(ops) |-> val(k)])
       nblk == CountTo(ops, Len(ops), "block")
       targets == [j \in 1..nblk |-> Blk(nm("t" \o ToString(j)), <<>>, RetVoid)]
-      body == IF e.cat = "term" THEN <<>> ELSE <<I>>
+      \* the instruction under test followed by a use of its result, in block b
+      withUse(b) == IF Usable(c.res) THEN <<I, UseOf(c.res, RInst(b, 1), nm("u"))>> ELSE <<I>>
+      body == IF e.cat = "term" THEN <<>> ELSE withUse(1)
       term == IF e.cat = "term" THEN I ELSE RetVoid
       nh == IF e.ctx = "catchswitch" THEN c.cfg.cnt[2] ELSE 0
       blocks ==
@@ -206,12 +214,12 @@ Scaffold(c0) ==
           [] e.ctx \in {"labels", "indirectbr", "callbr"} -> <<Blk(nm("entry"), <<>>, I)>> \o targets
           [] e.ctx = "phi" ->
                IF c.cfg.cnt[1] = 1
-               THEN <<Blk(nm("entry"), <<>>, Br(2)), Blk(nm("q1"), <<>>, Br(3)), Blk(nm("m"), <<I>>, RetVoid)>>
+               THEN <<Blk(nm("entry"), <<>>, Br(2)), Blk(nm("q1"), <<>>, Br(3)), Blk(nm("m"), withUse(3), RetVoid)>>
                ELSE <<Blk(nm("entry"), <<>>, CondBr(RParam(Len(params)), 2, 3)), Blk(nm("q1"), <<>>, Br(4)),
-                      Blk(nm("q2"), <<>>, Br(4)), Blk(nm("m"), <<I>>, RetVoid)>>
+                      Blk(nm("q2"), <<>>, Br(4)), Blk(nm("m"), withUse(4), RetVoid)>>
           [] e.ctx = "invoke" -> <<Blk(nm("entry"), <<>>, I), Blk(nm("t1"), <<>>, RetVoid),
                                    Blk(nm("t2"), <<LPadCleanup(nm("l"))>>, RetVoid)>>
-          [] e.ctx = "landingpad" -> <<Blk(nm("entry"), <<>>, InvokeH(2, 3)), Blk(nm("t1"), <<>>, RetVoid), Blk(nm("t2"), <<I>>, RetVoid)>>
+          [] e.ctx = "landingpad" -> <<Blk(nm("entry"), <<>>, InvokeH(2, 3)), Blk(nm("t1"), <<>>, RetVoid), Blk(nm("t2"), withUse(3), RetVoid)>>
           [] e.ctx = "catchswitch" ->
                <<Blk(nm("entry"), <<>>, InvokeH(2, 3)), Blk(nm("t1"), <<>>, RetVoid), Blk(nm("cs"), <<>>, I)>>
                \o [j \in 1..nh |-> Blk(nm("h" \o ToString(j)), <<CatchPad0(nm("cp" \o ToString(j)), 3)>>, CatchRet(RInst(3 + j, 1), 2))]
@@ -431,33 +439,40 @@ InstOf(kind, cls, cnt, fl, attrs, vals, nm) ==
 \* name of the next instruction: every third one unnamed
 NextName(n) == IF n % 3 = 0 THEN "" ELSE "v" \o ToString(n)
 
+\* In exhaustive mode every alternative is a successor; in random mode (-simulate) one alternative of
+\* every choice is drawn, so that a step has one successor.
+PickO(w) == Pick(Operands(w))
 ExecSteps ==   \* set of [inst, w, v, p, ub]
   LET n == Len(env) + 1
       BinSteps(kind, w) ==
-        LET fls == IF ExecExhaustive THEN {<<>>} \cup FlagSets(KindOf(kind)) ELSE Pick({<<>>} \cup FlagSets(KindOf(kind)))
-        IN {LET r == BinEval(kind, fl, a.v, b.v, w)
-                ub == r.ub \/ (kind \in DivKinds /\ (a.p \/ b.p))
-            IN [inst |-> InstOf(kind, ClsOfW(w), <<1, 1>>, fl, NoAttrs, <<a.ref, b.ref>>, NextName(n)),
-                w |-> w, v |-> r.v, p |-> r.p \/ a.p \/ b.p, ub |-> ub]
-            : fl \in fls, a \in Operands(w), b \in Operands(w)}
+        {LET r == BinEval(kind, fl, a.v, b.v, w)
+             ub == r.ub \/ (kind \in DivKinds /\ (a.p \/ b.p))
+         IN [inst |-> InstOf(kind, ClsOfW(w), <<1, 1>>, fl, NoAttrs, <<a.ref, b.ref>>, NextName(n)),
+             w |-> w, v |-> r.v, p |-> r.p \/ a.p \/ b.p, ub |-> ub]
+         : fl \in Pick({<<>>} \cup FlagSets(KindOf(kind))), a \in PickO(w), b \in PickO(w)}
       CmpSteps(w) ==
         {[inst |-> InstOf("icmp", ClsOfW(w), <<1, 1>>, <<>>, [pred |-> pr], <<a.ref, b.ref>>, NextName(n)),
           w |-> 1, v |-> BBool(ICmp(pr, a.v, b.v, w)), p |-> a.p \/ b.p, ub |-> FALSE]
-          : pr \in Pick(SeqToSet(IPreds)), a \in Operands(w), b \in Operands(w)}
+          : pr \in Pick(SeqToSet(IPreds)), a \in PickO(w), b \in PickO(w)}
       SelSteps(w) ==
         {[inst |-> InstOf("select", ClsOfW(w), <<1, 1, 1>>, <<>>, NoAttrs, <<c.ref, a.ref, b.ref>>, NextName(n)),
           w |-> w, v |-> IF c.v = <<1>> THEN a.v ELSE b.v, p |-> c.p \/ (IF c.v = <<1>> THEN a.p ELSE b.p), ub |-> FALSE]
-          : c \in Operands(1), a \in Operands(w), b \in Pick(Operands(w))}
+          : c \in PickO(1), a \in PickO(w), b \in Pick(Operands(w))}
       ConvSteps(kd, w, w2) ==
         {[inst |-> InstOf(kd, ClsOfW(w), <<1>>, <<>>, NoAttrs, <<a.ref>>, NextName(n)),
           w |-> w2, v |-> (CASE kd = "zext" -> ZExt(a.v, w, w2) [] kd = "sext" -> SExt(a.v, w, w2) [] kd = "trunc" -> Trunc(a.v, w2)),
           p |-> a.p, ub |-> FALSE]
-          : a \in Operands(w)}
-  IN UNION {UNION {BinSteps(ExecBin[ki], w) : w \in (IF ExecBin[ki] \in DivKinds THEN ExecWidths \cap {8, 16} ELSE ExecWidths \ {1})}
-            : ki \in 1..Len(ExecBin)}
-     \cup UNION {CmpSteps(w) \cup SelSteps(w) : w \in ExecWidths \ {1}}
-     \cup UNION {ConvSteps(kd, ww[1], ww[2]) : kd \in {"zext", "sext"}, ww \in {x \in ExecWidths \X ExecWidths : x[1] < x[2]}}
-     \cup UNION {ConvSteps("trunc", ww[1], ww[2]) : ww \in {x \in ExecWidths \X ExecWidths : x[1] > x[2]}}
+          : a \in PickO(w)}
+      BinW(kind) == IF kind \in DivKinds THEN ExecWidths \cap {8, 16} ELSE ExecWidths \ {1}
+      Up == {x \in ExecWidths \X ExecWidths : x[1] < x[2]}
+      Down == {x \in ExecWidths \X ExecWidths : x[1] > x[2]}
+      Cat(cat) ==
+        CASE cat = "bin" -> UNION {UNION {BinSteps(ExecBin[ki], w) : w \in Pick(BinW(ExecBin[ki]))} : ki \in Pick(1..Len(ExecBin))}
+          [] cat = "cmp" -> UNION {CmpSteps(w) : w \in Pick(ExecWidths \ {1})}
+          [] cat = "sel" -> UNION {SelSteps(w) : w \in Pick(ExecWidths \ {1})}
+          [] cat = "ext" -> IF Up = {} THEN {} ELSE UNION {ConvSteps(kd, ww[1], ww[2]) : kd \in Pick({"zext", "sext"}), ww \in Pick(Up)}
+          [] cat = "trunc" -> IF Down = {} THEN {} ELSE UNION {ConvSteps("trunc", ww[1], ww[2]) : ww \in Pick(Down)}
+  IN UNION {Cat(cat) : cat \in Pick({"bin", "cmp", "sel", "ext", "trunc"})}
 \* conversions keep only the well-typed width pairs and carry the target type
 ConvOK(s) == s.inst.kind \notin {"zext", "sext", "trunc"}
              \/ LET w == s.inst.ops[1].ty.w IN IF s.inst.kind = "trunc" THEN s.w < w ELSE s.w > w
